@@ -2,6 +2,7 @@ CONSTANTS Streams <- Big
   LenOf <- Lens
   ReadMax = 2048
   MaxReads = 2
+  Fails <- FewFail
   Cuts <- BigCuts
   D = 0
 INIT Init
